@@ -457,6 +457,13 @@ impl Env {
             "seek" => {
                 let b = &self.buckets.get(&num(2)).expect("unknown handle").1;
                 let mut c = b.cursor();
+                // optional 5th field: the cursor has already yielded that many entries before it is re-positioned
+                let pre: usize = f.get(4).map(|x| x.parse().unwrap()).unwrap_or(0);
+                for _ in 0..pre {
+                    if c.next().is_none() {
+                        break;
+                    }
+                }
                 let ex = with_arg!(unhex(f[3]), line_sel(f, 8), |k| c.seek(k));
                 let cur = c.current().map(|d| fmt_data(&d)).unwrap_or("none".into());
                 let mut v = Vec::new();
